@@ -111,8 +111,8 @@ def showErrKind : ErrKind → String
   | .checksum => "checksum" | .checksumRedirect => "checksumRedirect"
 
 def showSlot : BSlot → String
-  | .module (.js mt deps td) =>
-    s!"js:{((reprStr mt).splitOn ".").getLast!}:[{showDeps deps}]:{match td with | some r => showRes r | none => "-"}"
+  | .module (.js mt deps td sm) =>
+    s!"js:{((reprStr mt).splitOn ".").getLast!}:[{showDeps deps}]:{match td with | some r => showRes r | none => "-"}:{match sm with | some r => showRes r | none => "-"}"
   | .module (.wasm deps) => s!"wasm:[{showDeps deps}]"
   | .module .json => "json"
   | .module .node => "node"
